@@ -255,23 +255,29 @@ class DavSession:
 
     def proppatch(self, c, p, value):
         """Set (value: str) or remove (value None) one collection property."""
+        return self.propupdate(c, [(p, value)])
+
+    def propupdate(self, c, ops):
+        """One PROPPATCH with the instructions ops = [(property, value or None = remove)] in this order."""
         path = SLOTS[c] + "/"
-        body = gamma.proppatch_body([(p, value)])
+        body = gamma.proppatch_body(ops)
         resp = self.world.request("PROPPATCH", path, [("Content-Type", "text/xml")], body)
         # per-property status decides whether the server reported success
-        pst = None
+        status = {}
         if resp.status == 207:
             try:
                 rs, _ = alpha.parse_multistatus(resp.body)
                 for r in rs:
-                    t = r.props.get(gamma.PROP_TAGS[p])
-                    if t is not None:
-                        pst = t[0]
+                    for (p, _) in ops:
+                        t = r.props.get(gamma.PROP_TAGS[p])
+                        if t is not None:
+                            status[p] = t[0]
             except ValueError:
                 pass
-        ev = {"op": "Proppatch", "c": c, "p": NEUTRAL.get(p, p), "xp": p, "set": value is not None,
-              "v": self.V(value) if value is not None else 0, "pst": pst or 0}
-        return self._record(ev, resp, {"m": "PROPPATCH", "path": path, "p": p, "value": value})
+        ins = [{"p": NEUTRAL.get(p, p), "xp": p, "set": v is not None, "v": self.V(v) if v is not None else 0,
+                "pst": status.get(p) or 0} for (p, v) in ops]
+        ev = {"op": "Proppatch", "c": c, "ins": ins}
+        return self._record(ev, resp, {"m": "PROPPATCH", "path": path, "ops": [[p, v] for (p, v) in ops]})
 
     def restart(self):
         self.world.restart()
